@@ -309,6 +309,7 @@ def c04_generate(rng, tier):
     a += genhist.gen_play(rng, count(tier, 150, 2000))
     a += genhist.gen_dhar_strategy(rng, count(tier, 150, 2000))
     a += genhist.gen_enhanced_dhar(rng, count(tier, 60, 600), nmax=count(tier, 5, 6))
+    a += genhist.gen_dhar_batch(rng, count(tier, 100, 1000))
     return tag_cmp(a, None)
 
 
@@ -333,8 +334,8 @@ PROPS["C07"] = {"generate": c07_generate, "strata": algo_strata,
 # ---- C08
 def c08_generate(rng, tier):
     a = genhist.gen_dhar(rng, count(tier, 400, 6000), nmax=count(tier, 6, 8))
-    return tag_cmp(a, ["after_debt", "unburnt", "after_fire", "superstable", "borrows", "argtotal"],
-                   rel=["after_debt", "unburnt", "after_fire", "superstable", "argtotal"])
+    return tag_cmp(a, ["after_debt", "unburnt", "after_fire", "superstable", "borrows", "argtotal", "direct_unburnt", "direct_after"],
+                   rel=["after_debt", "unburnt", "after_fire", "superstable", "argtotal", "direct_unburnt", "direct_after"])
 
 
 NONTRIVIAL_RULE["C08"] = "non-trivial: n>=3 with a multi-edge or cycle"
@@ -527,6 +528,9 @@ PROPS["C17"] = {"generate": c17_generate, "group_judge": c17_group_judge, "strat
 # ---- C10
 def c10_generate(rng, tier):
     a = genhist.gen_config(rng, count(tier, 150, 1500), nmax=count(tier, 5, 6))
+    # configuration objects queried again after moves (is_superstable / legality on a live object)
+    a += [s for s in genhist.gen_div_hist(rng, count(tier, 200, 3000), p_bad=0.05) if s.get("q") is not None]
+    a += genhist.gen_cfg_requery(rng, count(tier, 300, 3000), nmax=count(tier, 5, 6))
     a += genhist.gen_parking(rng, count(tier, 400, 5000))
     # every sequence over [0..n+1]^n for small n, with and without explicit n
     import itertools as it
@@ -568,7 +572,7 @@ def c10_judge(rec):
 NONTRIVIAL_RULE["C10"] = "non-trivial: configuration batches on n>=3 vertices; parking sequences of length>=2; every superstable-count / K_n case"
 PROPS["C10"] = {"generate": c10_generate, "judge": c10_judge,
                 "strata": lambda rec: [f"op={rec['scn']['op']}", f"n={rec['scn'].get('n')}"],
-                "nontrivial": lambda rec: (rec["scn"]["op"] == "config" and rec["scn"]["n"] >= 3) or (rec["scn"]["op"] == "parking" and len(rec["scn"]["seq"]) >= 2) or rec["scn"]["op"] in ("superstable_count", "kn_parking", "parking_gen"),
+                "nontrivial": lambda rec: (rec["scn"]["op"] in ("config", "div_hist") and rec["scn"]["n"] >= 3) or (rec["scn"]["op"] == "parking" and len(rec["scn"]["seq"]) >= 2) or rec["scn"]["op"] in ("superstable_count", "kn_parking", "parking_gen"),
                 "rule": "configurations on generated multigraphs with every subset of V-q as candidate firing set (out-degree, legality, superstability, comparison operators against equal copies / other graphs / other sinks); superstable count vs exact determinant of the library's reduced Laplacian; K_(n+1) superstables vs parking functions; all integer sequences over [0..n+1]^n with and without explicit n; generated lists and counts",
                 "theorems": ["legal_iff", "superstable_iff", "superstable_iff_burn_all", "cmp_is_pointwise_order", "cmp_incomparable", "parking_length_mismatch", "parking_range", "generated_are_parking", "parking_count_small"]}
 
